@@ -49,12 +49,14 @@ SegsViol(t) ==
              \cup V(Len(R) = 0 \/ (R[1].start = 0 /\ \A k \in 1..(Len(R) - 1) : R[k + 1].start = End(R[k])), "SegmentsContiguousAndOrdered")
              \cup V(FoldLeft(LAMBDA a, x : a + x.n, 0, t.segs) = t.nt, "SegmentsSumToTriangleCount")
              \cup V(\A k \in 1..Len(t.segTriParts) : t.segTriParts[k] >= 0, "EveryTriangleInOneSegment")
+\* (IndexOps!StripTris is the strip decoding the format defines)
 ShapeConsistentViol(t) ==
     V(Len(t.labels) = t.nv /\ Len(t.vattr) = t.nv /\ t.lens.verts = t.nv, "PerVertexArraysHaveVertexCount")
     \cup V(\A f \in AttrNames : t.lens[f] \in {0, t.nv}, "AttributeArraysHaveVertexCount")
     \cup V(t.isStrips \/ Len(t.tris) = t.nt, "TriangleCounterAgrees")
     \cup V(TrisOK(t.tris, t.nv), "TriangleIndicesValid")
     \cup V(\A s \in 1..Len(t.strips) : IdxOK(t.strips[s], t.nv), "StripIndicesValid")
+    \cup V(~t.isStrips \/ t.tris = StripTris(t.strips), "TrianglesAreTheStripsDecoded")
     \cup V(\A b \in 1..Len(t.weights) : \A k \in 1..Len(t.weights[b]) : t.weights[b][k][1] < t.nv, "WeightIndicesValid")
     \cup V(\A b \in 1..Len(t.skinDataIdx) : IdxOK(t.skinDataIdx[b], t.nv), "SkinDataIndicesValid")
     \cup V(Len(t.vweights) \in {0, t.nv}, "VertexWeightsHaveVertexCount")
@@ -174,6 +176,8 @@ WeightsClose(s, t, slack) ==
 ConvertShapeViol(s, t) ==
     V(t.nv = s.nv /\ t.pcid = s.pcid, "PositionsBitExact")
     \cup V(BagEq(CanonSeq(t.tris), CanonSeq(s.tris)), "SameTriangleSet")
+    \* a strip shape's triangles are the ones its strips define (IndexOps!StripTris), whatever the accessor reports
+    \cup V(~s.isStrips \/ BagEq(CanonSeq(t.tris), CanonSeq(StripTris(s.strips))), "SameTrianglesAsTheStripsDefine")
     \cup V(Len(s.uvq) = 0 \/ CloseSeqs(s.uvq, t.uvq, 2), "UVsWithinStoragePrecision")
     \cup V(Len(s.colq) = 0 \/ Len(t.colq) = 0 \/ CloseSeqs(s.colq, t.colq, 1), "ColoursWithinStoragePrecision")
     \cup V(Len(s.colq) = 0 \/ Len(t.colq) > 0 \/ \A k \in 1..Len(s.colq) : s.colq[k] = <<255, 255, 255, 255>>, "OnlyWhiteColoursMayBeDropped")
